@@ -36,7 +36,7 @@ ASSUMPTIONS = [
     "Transitions.matrix() is compared outside the last row/column under site permutation (known finding K2 of C05 folds no-site events there)",
     'K1 (MDAnalysis PeriodicKDTree misses in strongly skewed boxes) is tolerated only when a direct MDAnalysis call reproduces the miss in the deviating representation',
 ]
-N_CASES = {'quick': 96, 'thorough': 2500}
+N_CASES = {'quick': 192, 'thorough': 3000}
 BUDGET_S = {'quick': 230, 'thorough': 2600}
 K1 = c02.K1
 ECOLS = ['atom index', 'start site', 'destination site', 'start inner site', 'destination inner site', 'time']
@@ -260,8 +260,8 @@ def classify_k1(rep: Rep, out, ctx, what):
 
 
 def run_unit(unit, rng, ctx):
-    f = float(rng.choice([1.0, 0.5]))
-    sys_ = gen.make_site_system(rng, T=int(rng.integers(20, 60)), n_sites=int(rng.integers(2, 8)), n_atoms=int(rng.integers(1, 4)), inner_fraction=f, margin=0.04, p_move=float(rng.choice([0.2, 0.4])), n_framework=int(rng.integers(2, 5)), lo=5.0, hi=9.0)
+    f = float(rng.choice([1.0, 0.5, 0.5]))
+    sys_ = gen.make_site_system(rng, T=int(rng.integers(20, 60)), n_sites=int(rng.integers(2, 8)), n_atoms=int(rng.choice([1, 2, 2, 3, 3, 4])), inner_fraction=f, margin=0.04, p_move=float(rng.choice([0.2, 0.4])), n_framework=int(rng.integers(2, 5)), lo=5.0, hi=9.0)
     base_rep = Rep(sys_.matrix, np.mod(sys_.coords, 1), list(sys_.species_names), sys_.site_frac.copy(), list(sys_.labels), sys_.site_radius_arg, f, sys_.radii.copy(), sys_.time_step, sys_.temperature)
     lengths = np.linalg.norm(sys_.matrix, axis=1)
     params = {'coll_dist': float(rng.uniform(1.0, 4.0)), 'max_dist': float(rng.uniform(2.0, 5.0)), 'res': float(rng.choice([0.25, 0.5])), 'grid_res': float(lengths.min() / rng.uniform(3.2, 6.8))}
@@ -302,6 +302,11 @@ def run_unit(unit, rng, ctx):
         # keep floating atoms first is not required by the API, so also interleave species
         order = rng.permutation(N)
         li_positions = [i for i in order if i < nLi]
+        if nLi >= 2 and li_positions == sorted(li_positions):
+            # make sure the relative order of the diffusing atoms really changes
+            rev = iter(sorted(li_positions, reverse=True))
+            order = np.array([next(rev) if i < nLi else i for i in order])
+            li_positions = [i for i in order if i < nLi]
         amap = np.array(li_positions)
         reps.append(('atom permutation', replace(base_rep, coords=base_rep.coords[:, order], names=[base_rep.names[i] for i in order], path_atom=int(np.nonzero(order == 0)[0][0])), amap, ident_s, (0, 0, 0), False))
         sperm = rng.permutation(S)
